@@ -14,13 +14,14 @@ import (
 func init() { registry["C04"] = checkC04 }
 
 func checkC04(c *Ctx, r *Report) {
-	r.Explain = "Decides structural necessary conditions of well-formed revision trees with a deterministic winner: (R1) compareRevIDs is, for all generations and digests, the lexicographic order on (generation, digest) — evaluated abstractly over every weak ordering of the two generations and two digests; (R2) the winner fold replaces the incumbent exactly when (not deleted, revID) is lexicographically greater, for all combinations, and reports branched/conflict as leaf counts > 1 — together with R1 (a total order) this makes the winner independent of leaf iteration order; (R3) a revision enters the tree only after the duplicate check, the parent-exists check and the strictly-higher-generation check; (R4) the document's current revision and deleted/conflict/branched flags are assigned from the winner computation only; (R5) the stored form is symmetric: every field of the wire struct the encoder fills is consumed by the decoder, every RevInfo field the encoder reads the decoder restores, and the revs/parents length validation precedes tree construction; (R6) pruning snips dangling parent links after every deletion pass; (R7) a failure to store a displaced revision body aborts the update, so the tree never points at a body that was not written. Not decided: forest shape after arbitrary histories, leaf-set equality across insertion orders, pruning depth arithmetic, digest determinism."
+	r.Explain = "Decides structural necessary conditions of well-formed revision trees with a deterministic winner: (R1) compareRevIDs is, for all generations and digests, the lexicographic order on (generation, digest) — evaluated abstractly over every weak ordering of the two generations and two digests; (R2) the winner fold replaces the incumbent exactly when (not deleted, revID) is lexicographically greater, for all combinations, and reports branched/conflict as leaf counts > 1 — together with R1 (a total order) this makes the winner independent of leaf iteration order; (R3) a revision enters the tree only after the duplicate check, the parent-exists check and the strictly-higher-generation check; (R4) the document's current revision and deleted/conflict/branched flags are assigned from the winner computation only; (R5) the stored form is symmetric: every field of the wire struct the encoder fills is consumed by the decoder, every RevInfo field the encoder reads the decoder restores, and the revs/parents length validation precedes tree construction; (R6) pruning snips dangling parent links after every deletion pass; (R7) a failure to store a displaced revision body aborts the update, so the tree never points at a body that was not written; (R8) the leaf-derived indicators are recomputed after the write path's last tree-changing step (pruning). Not decided: forest shape after arbitrary histories, leaf-set equality across insertion orders, pruning depth arithmetic, digest determinism."
 	c04R1R2(c, r)
 	c04R3(c, r)
 	c04R4(c, r)
 	c04R5(c, r)
 	c04R6(c, r)
 	c04R7(c, r)
+	c04R8(c, r)
 }
 
 func c04R1R2(c *Ctx, r *Report) {
@@ -658,5 +659,58 @@ func c04R7(c *Ctx, r *Report) {
 			r.Check("C04-R7", fmt.Sprintf("fn=%s call=%s #%d failure-aborts-update", s.fn, CalleeIdentOf(s.callee), i+1), c.Pos(call.Pos()), v.Verdict == "propagating",
 				"a body that could not be stored aborts the write", "a failed store of a displaced revision body does not abort the update: the revision tree is committed pointing at a body key that was never written; when that leaf is later promoted the document carries another branch's content under its revision id ("+v.Detail+")")
 		}
+	}
+}
+
+// C04-R8: the deleted / conflict / branched indicators are derived from the leaves, so they have to be (re)computed after the last
+// operation of the write that can change the set of leaves: pruning can delete whole tombstoned branches.
+func c04R8(c *Ctx, r *Report) {
+	r.Rule("C04-R8", "E2 pathrules (must-follow)", "in documentUpdateFunc every pruning of the revision tree is followed, on every path to the function's exit, by a recomputation of the leaf-derived indicators (winningRevision → setFlag / updateWinningRevAndSetDocFlags)", 1)
+	fn := c.Func("(*db.DatabaseCollectionWithUser).documentUpdateFunc")
+	if fn == nil {
+		r.Fail("C04-R8", "anchor documentUpdateFunc", "-", "function not found")
+		return
+	}
+	prunes := c.EffectSites(fn, func(in ssa.Instruction) bool {
+		ci, ok := in.(ssa.CallInstruction)
+		return ok && (c.CalleeName(ci) == "(*db.Document).pruneRevisions" || c.CalleeName(ci) == "(db.RevTree).pruneRevisions")
+	}, 2)
+	recompute := c.EffectSites(fn, func(in ssa.Instruction) bool {
+		ci, ok := in.(ssa.CallInstruction)
+		if !ok {
+			return false
+		}
+		n := c.CalleeName(ci)
+		return n == "(*db.Document).updateWinningRevAndSetDocFlags" || n == "(db.RevTree).winningRevision"
+	}, 2)
+	if len(prunes) == 0 {
+		r.Fail("C04-R8", "fn=documentUpdateFunc prune-site", c.Pos(fn.Pos()), "the write path no longer prunes the revision tree (anchor lost)")
+		return
+	}
+	isRet := func(in ssa.Instruction) bool { _, ok := in.(*ssa.Return); return ok }
+	for i, p := range prunes {
+		// a path on which the pruning reported that nothing was removed needs no recomputation
+		var nothingPruned []Edge
+		if pv := valueOfCall(p.(ssa.CallInstruction)); pv != nil {
+			nothingPruned = EdgesWhere(fn, func(cond ssa.Value) (bool, bool) {
+				b, ok := cond.(*ssa.BinOp)
+				if !ok || b.X != pv {
+					return false, false
+				}
+				if k, isK := constInt(b.Y); !isK || k != 0 {
+					return false, false
+				}
+				switch b.Op {
+				case token.GTR, token.NEQ:
+					return true, false
+				case token.EQL, token.LEQ:
+					return true, true
+				}
+				return false, false
+			})
+		}
+		leak := ReachAfter(p, isRet, NewAvoid().AddInstr(recompute...).AddEdge(nothingPruned...))
+		r.Check("C04-R8", fmt.Sprintf("fn=documentUpdateFunc prune #%d followed-by=indicator-recomputation", i+1), c.Pos(p.Pos()), leak == nil,
+			"the indicators are recomputed from the leaves that remain after pruning", "the revision tree is pruned after the deleted/conflict/branched indicators were computed and they are not recomputed: when pruning removes a whole tombstoned branch the stored document says 'branched' although it has a single leaf")
 	}
 }
